@@ -1,10 +1,11 @@
 #!/bin/sh
-# runs every claimed quick (or $1) check once, one summary line each
+# runs every claimed quick (or $1) check once, one summary line each; per-check logs go to .work/runall_<ID>.log
 cd "$(dirname "$0")/.."
 TIER=${1:-quick}
+mkdir -p .work
 for p in $(python3 -c "import json; print(' '.join(c['property_id'] for c in json.load(open('MANIFEST.json'))['checks']))"); do
   s=$(date +%s)
-  ./check $p --tier $TIER > /tmp/runall_$p.log 2>&1
+  ./check $p --tier $TIER > .work/runall_$p.log 2>&1
   rc=$?
-  echo "$p rc=$rc $(( $(date +%s) - s ))s $(grep -E "^$p $TIER" /tmp/runall_$p.log | tail -1 | cut -c1-160)"
+  echo "$p rc=$rc $(( $(date +%s) - s ))s $(grep -E "^$p $TIER" .work/runall_$p.log | tail -1 | cut -c1-160)"
 done
